@@ -92,6 +92,25 @@ def key(ctx):
                 disjoint = (s_i + 16 <= s_t) or (s_t + 4 <= s_i)
                 out.append(Inst("KEY", "%s->%s:disjoint" % (K, A), disjoint, site, "tag bits [%d,%d) id bits [%d,%d)" % (s_t, s_t + 4, s_i, s_i + 16),
                                 "bit ranges of the 4-bit type and the 16-bit identifier must not overlap"))
+    # the shifts are performed in a type wide enough to hold the shifted value (tag: 4 bits, identifier: 16 bits)
+    for b_, nm_ in ((tb, "tx"), (rb, "rx")):
+        for i in sorted(b_.reach):
+            for st in b_.blocks[i]["stmts"]:
+                if st["k"] != "assign" or st["rv"]["k"] != "bin" or st["rv"]["op"] != "Shl":
+                    continue
+                sh = b_.fold(st["rv"]["b"])
+                ty = b_.locals[st["lhs"]["l"]]["ty"] if not st["lhs"]["p"] else None
+                at = b_.atoms(st["rv"]["a"])
+                is_id = any(a[0] == "field" and a[2] == "packet_identifier" for a in at)
+                width = {"u8": 8, "u16": 16, "u32": 32, "u64": 64, "usize": 64, "i32": 32}.get(ty)
+                need = (sh or 0) + (16 if is_id else 4)
+                if sh is None or width is None:
+                    continue
+                ok_w = width >= need
+                if not ok_w or is_id:
+                    out.append(Inst("KEY", "%s:shift-width:%s<<%d:%s" % (nm_, "id" if is_id else "tag", sh, ty), ok_w, "%s:%d" % (b_.fn["file"], st["line"]),
+                                    "%s << %d is computed in %s (%d bits), needs %d bits" % ("identifier" if is_id else "tag", sh, ty, width, need),
+                                    "the shifted value is not truncated (key stays injective)"))
     # distinct tags on the rx side
     tags = {}
     for (v, q), e in rx.items():
@@ -182,8 +201,10 @@ def lookup(ctx):
     fact = "return value is not produced by Iterator::position"
     if o is not None and (callee_name(o) or "").endswith("Iterator::position"):
         recv = ls.atoms(o["ops"][0])
+        adaptors = sorted(a[1].split("::")[-1] for a in recv if a[0] == "call" and not a[1].endswith("VecDeque::iter")
+                          and not re.search(r"(Deref::deref|AsRef::as_ref|Borrow::borrow|IntoIterator::into_iter)$", a[1]))
         iter_ok = any(a[0] == "call" and a[1].endswith("VecDeque::iter") for a in recv) and any(a[0] == "param" and a[1] == 1 for a in recv) \
-            and not any(a[0] == "call" and (a[1].endswith("::rev") or "skip" in a[1] or "filter" in a[1]) for a in recv)
+            and not adaptors
         clo = [a[1] for a in ls.atoms(o["ops"][1]) if a[0] == "closure"]
         cl_ok = False
         if clo:
@@ -196,7 +217,7 @@ def lookup(ctx):
                 f0 = any(l[4] == 2 and any(str(f[1]) == "0" for f in l[2]) for l in la + lb) or any("_2" in l[1] and ".0" in l[1] for l in la + lb)
                 up = any(l[4] == 1 for l in la + lb)
                 cl_ok = f0 and up
-                fact = "position(|(k,_)| k == key) over deque.iter(): field0=%s captured-key=%s iter=%s" % (f0, up, iter_ok)
+                fact = "position(|(k,_)| k == key) over deque.iter(): field0=%s captured-key=%s plain-iter=%s%s" % (f0, up, iter_ok, " (adaptors: %s)" % adaptors if adaptors else "")
             else:
                 fact = "predicate is %s, not a plain equality" % (e0[:2],)
         ok = iter_ok and cl_ok
@@ -572,3 +593,87 @@ def _qos_branch(body, bb):
             if len(names) == 1:
                 return names[0]
     return None
+
+
+@rule("ENCODE-ONCE", floor=8)
+def encode_once(ctx):
+    """Every buffer handed to the context in a ContextMessage received exactly one `encode` since it was
+    created, `split()` off or cleared - on every path (one request = one packet; forward dataflow over the
+    handle operation)."""
+    out = []
+    for name, body in ctx.handle_ops().items():
+        enq = [e for e in ctx.effects(body) if e.kind == "Enqueue"]
+        for k, e in enumerate(enq):
+            agg, _ = _agg_of(body, e.term["ops"][1])
+            inner, _ = _agg_of(body, agg["ops"][0]) if agg else (None, None)
+            if inner is None:
+                continue
+            pk = dict(zip(inner["fields"], inner["ops"])).get("packet")
+            if pk is None:
+                continue
+            # the message buffer: a BytesMut local, possibly the result of `B.split()` / `B.clone()`
+            src = body.origin(pk)
+            via = "moved"
+            B = body.base_local(pk)
+            take_bb = None
+            if src[0] == "call":
+                nm = callee_name(src[2]) or ""
+                if nm.endswith("BytesMut::split") or nm.endswith("Clone::clone") or nm.endswith("BytesMut::split_to") or nm.endswith("BytesMut::split_off"):
+                    via = nm.split("::")[-1]
+                    B = body.base_local(src[2]["ops"][0])
+                    take_bb = src[1]
+            target = take_bb if take_bb is not None else e.inner_bb
+            # forward dataflow: number of encodes into B since the last reset, as a set of {0,1,2}
+            IN = {0: {0}}
+            work = [0]
+            while work:
+                b = work.pop()
+                S = set(IN[b])
+                t = body.term(b)
+                if b == target:
+                    pass
+                if t["k"] == "call" and b != target:
+                    nm = callee_name(t) or ""
+                    refs_B = any(o.get("k") != "const" and body.base_local(o) == B for o in t["ops"])
+                    if t["dest"]["l"] == B and not t["dest"]["p"]:
+                        S = {0}                                        # B (re)created by a call result
+                    elif refs_B and nm.endswith("Encode::encode"):
+                        S = {min(x + 1, 2) for x in S}
+                    elif refs_B and (nm.endswith("BytesMut::split") or nm.endswith("BytesMut::clear") or nm.endswith("BytesMut::truncate")):
+                        S = {0}
+                for st in body.blocks[b]["stmts"]:
+                    if st["k"] == "assign" and st["lhs"]["l"] == B and not st["lhs"]["p"] and b != target:
+                        S = {0}
+                for s_ in body.succ(b):
+                    old = IN.get(s_)
+                    new = S | (old or set())
+                    if old is None or new != old:
+                        IN[s_] = new
+                        work.append(s_)
+            got = IN.get(target, set())
+            out.append(Inst("ENCODE-ONCE", "%s#%d" % (name, k), got == {1}, e.site(),
+                            "message buffer (%s of local _%s) holds %s encoded packet(s) when it is handed over" % (via, B, sorted(got)),
+                            "exactly one encoded packet per message on every path"))
+    return out
+
+
+@rule("ENQUEUE-ALWAYS", floor=5)
+def enqueue_always(ctx):
+    """Every way a handle operation can finish other than through a `?` error passes through the
+    enqueue of its request: an operation never reports completion without having handed a request to
+    the context."""
+    from r_exits import exits
+    out = []
+    for name, body in ctx.handle_ops().items():
+        enq = [e.inner_bb for e in ctx.effects(body) if e.kind == "Enqueue"]
+        bad = []
+        n = 0
+        for x in exits(ctx, body):
+            if x["kind"] == "residual":
+                continue
+            n += 1
+            if not any(body.dominates(b, x["bb"]) for b in enq):
+                bad.append(body.site(x["bb"]))
+        out.append(Inst("ENQUEUE-ALWAYS", name, not bad and n > 0, body.site(0), "%d non-error exits, not preceded by an enqueue: %s" % (n, bad or "none"),
+                        "completion is reported only for a request that was handed to the context"))
+    return out
